@@ -412,36 +412,11 @@ func runC05R3(c *eng.Ctx, r *eng.RuleCtx) {
 			r.Bad(construct, call.Pos(), ls.fn.Name()+" is not inside a loop over "+ls.name)
 			continue
 		}
-		dirOK := false
-		overOK := false
-		elemOK := false
 		lastArg := call.Args[len(call.Args)-1]
-		switch t := loop.(type) {
-		case *ast.RangeStmt:
-			x := t.X
-			if ls.desc && eng.IsDescendingLoop(info, t) {
-				dirOK = true
-				x = ast.Unparen(t.X).(*ast.CallExpr).Args[0]
-			} else if !ls.desc && eng.IsAscendingLoop(info, t) {
-				dirOK = true
-			}
-			overOK = eng.IsField(info, x, ls.field)
-			if t.Value != nil {
-				elemOK = eng.SelObj(info, lastArg) != nil && eng.SelObj(info, lastArg) == eng.SelObj(info, t.Value)
-			}
-		case *ast.ForStmt:
-			if ls.desc {
-				dirOK = eng.IsDescendingLoop(info, t)
-			} else {
-				dirOK = eng.IsAscendingLoop(info, t)
-			}
-			overOK = eng.MentionsField(info, t.Init, ls.field, false) || eng.MentionsField(info, t.Cond, ls.field, false)
-			if ix, ok := ast.Unparen(lastArg).(*ast.IndexExpr); ok && eng.IsField(info, ix.X, ls.field) {
-				if as, ok := t.Init.(*ast.AssignStmt); ok && len(as.Lhs) == 1 {
-					elemOK = eng.SelObj(info, ix.Index) != nil && eng.SelObj(info, ix.Index) == eng.SelObj(info, as.Lhs[0])
-				}
-			}
-		}
+		el, isEl := eng.ElemLoopOf(info, loop)
+		dirOK := isEl && el.Desc == ls.desc
+		overOK := isEl && eng.IsField(info, el.Base, ls.field)
+		elemOK := isEl && el.IsElem(lastArg)
 		idOK := true
 		if ls.fn == addAfter {
 			idOK = len(call.Args) == 2 && isCurID(call.Args[0])
@@ -699,35 +674,61 @@ func runC05R6(c *eng.Ctx, r *eng.RuleCtx) {
 				}
 			}
 		}
-		// the index is set only where GetId() == id
+		// the index is set only where GetId() == id: every assignment of the index variable other than its
+		// initialisation is control-dependent on the id comparison; when the initial value is a valid position
+		// (not a negative sentinel) the splice itself must be reachable only through such an assignment (a found
+		// flag, tracked by the flag-sensitive graph, guards it)
 		idOK := false
 		if idx != nil {
 			prm := f.Obj.Type().(*types.Signature).Params().At(0)
 			g := p.GraphOf(f)
 			idOK = true
 			cnt := 0
+			needGuard := false
+			matched := map[*eng.GNode]bool{}
+			match := func(fc eng.Fact) bool {
+				x, y, eq, ok := eng.EqAtom(fc)
+				if !ok || !eq {
+					return false
+				}
+				return (isCallTo(info, x, getID) && eng.SelObj(info, y) == prm) || (isCallTo(info, y, getID) && eng.SelObj(info, x) == prm)
+			}
 			for _, n := range g.Nodes {
 				st, ok := n.Node.(*ast.AssignStmt)
-				if !ok || len(st.Lhs) != 1 || eng.SelObj(info, st.Lhs[0]) != idx {
+				if !ok {
 					continue
 				}
-				if v, isC := eng.ConstInt(info, st.Rhs[0]); isC && v == -1 {
-					continue
-				}
-				cnt++
-				match := func(fc eng.Fact) bool {
-					x, y, eq, ok := eng.EqAtom(fc)
-					if !ok || !eq {
-						return false
+				for i, l := range st.Lhs {
+					if eng.SelObj(info, l) != idx {
+						continue
 					}
-					return (isCallTo(info, x, getID) && eng.SelObj(info, y) == prm) || (isCallTo(info, y, getID) && eng.SelObj(info, x) == prm)
-				}
-				if !g.OnlyVia(n, nil, g.FactEdge(match)) {
-					idOK = false
+					if _, isIdent := ast.Unparen(l).(*ast.Ident); !isIdent {
+						continue
+					}
+					if len(st.Lhs) != len(st.Rhs) {
+						idOK = false
+						continue
+					}
+					if v, isC := eng.ConstInt(info, st.Rhs[i]); isC {
+						if v >= 0 {
+							needGuard = true
+						}
+						continue
+					}
+					cnt++
+					if g.OnlyVia(n, nil, g.FactEdge(match)) {
+						matched[n] = true
+					} else {
+						idOK = false
+					}
 				}
 			}
 			if cnt == 0 {
 				idOK = false
+			}
+			if idOK && needGuard {
+				sp := g.NodeOf(as)
+				idOK = sp != nil && g.OnlyVia(sp, func(m *eng.GNode) bool { return matched[m] }, nil)
 			}
 		}
 		r.Check(good && idOK, f.Key, posOf(as), "items = items[:i] ++ items[i+1:], i chosen by GetId()==id", fmt.Sprintf("remove is not `delete the element whose id matches` (splice=%v indexByIdEquality=%v)", good, idOK))
